@@ -37,3 +37,5 @@ META = dict(
                 "implementation only."),
     technique="runtime monitoring: event-log checker (once, order, join-after-exit, count) + TSan/ASan/LSan + fault injection under schedule perturbation",
 )
+
+CFG["rule"] += (" " + 'Additions: finite join timeout / library clean-up that gives up / library re-init prelude; manual threads counted in and out through aws_thread_increment/decrement_unjoined_count by an owner thread; at-exit registration from inside aws_thread_call_once; a second thread calling join-all concurrently; stage tsanrel (-O2 under TSan).')
